@@ -26,6 +26,9 @@ CHECKS = {
  "C11": dict(cat="proof", ref="DESIGN.md §5 C11",
    text="Coq theorems (28): version_sort and compare_items are total preorders for all identifiers (no length bound); a stable sort by a total preorder is a sorted permutation, unique and independent of the algorithm, and independent of the input order whenever Equal implies identical; Equal classes of version_sort characterised (equal chunk lists). Tied to the code by a correspondence run (comparison matrices, sort_by results, compare_items on parsed items) through hooks; the preorder laws and permutation-invariance are also evaluated on the implementation end to end (every permutation of generated groups is formatted).",
    note="Trusted: Coq kernel, hand-written model of sort.rs/compare_items (usize = 64 bit), slice::sort_by is a correct stable sort given a total preorder. Ord for UseTree (imports.rs) is not modelled: import ordering is covered only by the end-to-end permutation oracle. Group boundaries (blank lines, macro_use, skip) not covered by this check. Known finding class: identifiers with a digit run >= 2^64."),
+ "C14": dict(cat="proof", ref="DESIGN.md §5 C14",
+   text="Coq theorems (38) over a model of config discovery on an abstract file system (nearest ancestor wins, dotted name first, then home, then config dir; --config-path replaces wholesale; missing path is an error), the per-option provenance merge (CLI --config > dedicated flag > file > default of the effective style edition; exact precedence chain for the style edition), alias setters, width heuristics (explicit widths clamped; exact thresholds under which derived widths stay below max_width; scaled with exact rationals) and the --print-config round trip; every clause that is false of the faithful model is a _refuted/_gap lemma with a witness. Tied to the code by running the real rustfmt binary on generated directory layouts, config files, --config lists and flags (--print-config current parsed and compared option by option), exhaustively for scaled over max_width 0..400 (quick) / 0..10000 (thorough).",
+   note="Trusted: Coq kernel; hand-written model over 26 options (the 22 with derived behaviour + 4 plain); f32 arithmetic of scaled replaced by exact rationals (validated on [0,10000]); symlinks/canonicalisation, the ignore list and API-only setters not observable through the binary. Seven genuine deviations from the property text are recorded as known findings."),
  "C17": dict(cat="proof", ref="DESIGN.md §5 C17",
    text="Coq theorems (28) over a model of Range and FileLines: queries answer as the UNION of the given ranges for every range list incl. empty ranges, normal form sorted/disjoint/non-adjacent, empty selection selects nothing; model tied to the code by a seeded correspondence run through hook config::file_lines::verif; union semantics also evaluated directly on the implementation's answers.",
    note="Partial: the range algebra and queries are proved; the clauses about emitted bytes (unselected items byte-identical, selected code formatted as without restriction) are not covered by this check yet. Trusted: Coq kernel, hand-written model, Vec::sort correctness, path canonicalisation abstracted."), "C19": dict(cat="proof", ref="DESIGN.md §5 C19",
